@@ -140,10 +140,10 @@ def run(ctx):
     vlib.log("  [M] MC_Traverse_reversed: broken variant refuted, as required")
     if ctx.tier == "thorough":
         leg_R(ctx, "MC_Traverse_n9", 9, workers=16)
-        leg_T(ctx, 200, 1000000)
+        leg_T(ctx, 300, 1000000)
     else:
         leg_R(ctx, "MC_Traverse_n7", 7)
-        leg_T(ctx, 40, 100000)
+        leg_T(ctx, 80, 100000)
     ctx.exhaustive = True
 
 
